@@ -483,6 +483,9 @@ ITEMS = {
     'termtype': [['say', 'Terminal type? '], ['line']],
     'banner': [['say', 'Welcome to host$ost #1 (GNU/Linux)\r\nLast login: today\r\n']],
     'plainbanner': [['say', 'Welcome. Last login: today\r\n']],
+    # text that talks about passwords without asking for one
+    'pwbanner': [['say', 'Your password will expire in 7 days.\r\nLast login: Mon Sep 30 from 10.0.0.1\r\n']],
+    'motd': [['say', 'Remember: the password policy changed; passphrases of 12 letters or more: see intranet.\r\n']],
     'closed': [['say', 'Connection closed by remote host\r\n'], ['close']],
     'silence': [['silence', 50]],
     'pause': [['silence', 0.7]],
@@ -517,6 +520,8 @@ CORPUS = [
     dict(items=['password'], shell=['shell', 'stuck', '$ ', {}], opts=dict(sync=True, reset=True)),
     dict(items=['password', 'banner'], shell=['shell', 'sh', '> ', {'delay': 0.3}], opts=dict(sync=True, reset=True), commands=['echo slow']),
     dict(items=['password', 'pause', 'exit'], shell=None, opts=dict(sync=False, reset=False)),
+    dict(items=['pwbanner'], shell=['shell', 'sh', '$ ', {}], opts=dict(sync=True, reset=True), commands=['echo key login']),       # key-based login: no password prompt at all
+    dict(items=['motd', 'password', 'pwbanner'], shell=['shell', 'sh', 'h$ ', {}], opts=dict(sync=True, reset=True), commands=['echo ok']),
     # two logins on one object (jump host): what the first leaves behind must not weaken what the second guarantees
     dict(items=['password'], shell=['shell', 'sh', 'jump$ ', {}], opts=dict(sync=True, reset=False),
          then=dict(items=['password'], shell=['shell', 'stuck', 'r$ ', {}], opts=dict(sync=True, reset=True, local=False))),
@@ -544,8 +549,8 @@ def finish_case(c, rng):
 
 def rand_case(rng, depth=0):
     n = rng.randrange(0, 6)
-    pool = ['hostkey', 'password', 'passphrase', 'denied', 'termtype', 'banner', 'plainbanner', 'closed', 'silence', 'pause', 'exit']
-    w = [2, 5, 1, 2, 1, 2, 2, 1, 1, 2, 1]
+    pool = ['hostkey', 'password', 'passphrase', 'denied', 'termtype', 'banner', 'plainbanner', 'closed', 'silence', 'pause', 'exit', 'pwbanner', 'motd']
+    w = [2, 5, 1, 2, 1, 2, 2, 1, 1, 2, 1, 1, 1]
     items = [rng.choices(pool, w)[0] for _ in range(n)]
     # a terminal item ends the dialogue
     for k, it in enumerate(items):
